@@ -81,7 +81,32 @@ def r_django_captured(prog):
     return (not prog["isolated"]) and any(n["t"] == "comp" and fill_under_ctl(n["body"], False) for n in nodes_of(prog))
 
 
+def r_parentloop_in_fill(prog):
+    for n in nodes_of(prog):
+        if n["t"] == "fill":
+            for m in tplgen.walk(n["body"]):
+                if m["t"] == "out" and m["e"].get("var", [])[:2] == ["forloop", "parentloop"]:
+                    return True
+    return False
+
+
+def _nodigits(s):
+    return "".join(ch for ch in s if not ch.isdigit()) if isinstance(s, str) else s
+
+
+def parentloop_only(real, rep, sp):
+    """the code differs from model and reading only in digits (loop counters), model = reading"""
+    if real["err"] or rep.get("err") or sp is None or sp.get("err") or "error" in rep or "error" in sp:
+        return False
+    a = tplgen.canon_real(real["out"], real["hash2name"])
+    b = tplgen.canon_model(rep["out"])
+    c = tplgen.canon_model(sp["out"])
+    d = tplgen.canon_real(real["out"], real["hash2name"], drop_dynamic=True)
+    return _nodigits(a) == _nodigits(b) and _nodigits(d) == _nodigits(c)
+
+
 REGIONS = {
+    "captured-parentloop-aliased": r_parentloop_in_fill,
     "django-captured-over-data": r_django_captured,
     "django-slot-owner-override": r_django_nested,
     "django-only-fill-loses-outer": r_django_only_fill,
@@ -179,6 +204,11 @@ def classify(chk, stream, prog, real, rep, sp, regions):
     """apply the decision protocol to one program; returns 'ok' | 'known' | 'violation' | 'disagree'"""
     dm = cmp_model(real, rep) if rep is not None else None
     ds = cmp_spec(real, sp) if sp is not None else None
+    if dm == "output" and ds == "output" and "captured-parentloop-aliased" in regions and r_parentloop_in_fill(prog) \
+            and parentloop_only(real, rep, sp):
+        # a defect of the code the functional model cannot exhibit (aliased dict): pinned by "only loop counters differ"
+        chk.known_hit("captured-parentloop-aliased", describe(prog))
+        return "known"
     if dm is not None:
         chk.count("model_impl_disagreements", 0)
         if len([v for v in chk.violations if v["kind"] == "model-impl-disagree"]) < 3:
